@@ -144,6 +144,30 @@ def body_segments(segs, base=0):
     return (ok, cls)
 
 
+TAILS = ["x", "other/x", "other/secret", "root-old/x", "rootx", "root", "root/../rootx", "srv/other/x", ".git/config",
+         "a.ics", "x/"]
+
+
+def body_climb(base, ups, tail, lead):
+    """Escape attempts in canonical form: an existing container, `ups` times '..', then a tail that names a
+    sibling of the data root (incl. siblings whose name starts with the root's own basename); optionally a doubled
+    leading slash.  Small enough to be exhausted."""
+    part = ctx.PART
+    ROOT_STORE[0] = False
+    method = METHODS[part]
+    path_info = ("/" if lead else "") + CONTAINERS[base] + "/" + "../" * ups + TAILS[tail]
+    ok, cls = _judge(method, path_info)
+    return (ok, cls)
+
+
+def h_climb(base: int, ups: int, tail: int, lead: bool) -> bool:
+    """
+    pre: 0 <= base < len(CONTAINERS) and 0 <= ups <= ctx.b.ups and 0 <= tail < len(TAILS)
+    post: _
+    """
+    return run(body_climb, base, ups, tail, lead)
+
+
 def h_segments(segs: List[int], base: int) -> bool:
     """
     pre: len(segs) <= ctx.b.nseg and all(0 <= i < len(SEGS) for i in segs) and 0 <= base < len(CONTAINERS)
@@ -268,6 +292,13 @@ HARNESSES = [
             real_replay=real_segments,
             describe="path_info = '/' + '/'.join(segments from an adversarial menu incl. double-encoded ones); part = "
                      "method, or (method, 'rootstore') for a deployment whose data root is itself a git collection",
+            encodes=_ENC),
+    Harness("climb", h_climb, body_climb, classes=[("dotted:as-normalised", 4), ("dotted:refused", 0)],
+            parts={"quick": [1, 3, 4, 5], "thorough": list(range(len(METHODS)))},
+            bounds={"quick": {"ups": 5}, "thorough": {"ups": 6}}, budget={"quick": 100, "thorough": 600},
+            real_replay=lambda args, part: _real(METHODS[part], ("/" if args[3] else "") + CONTAINERS[args[0]] + "/" + "../" * args[1] + TAILS[args[2]]),
+            describe="canonical escape attempts: container + k x '..' + a tail naming a sibling of the root (also siblings "
+                     "whose name starts with the root's basename), optional doubled leading slash; part = method",
             encodes=_ENC),
     Harness("raw", h_raw, body_raw, classes=[("dotted:refused", 4)],
             parts={"quick": [1, 3, 4, 5, 6], "thorough": list(range(len(METHODS)))}, bounds=_B,
